@@ -4,6 +4,7 @@ import (
 	"encoding/json"
 	"fmt"
 	"regexp"
+	"sort"
 	"strings"
 
 	mxj "github.com/clbanning/mxj/v2"
@@ -476,6 +477,21 @@ func replayLeaf(line []byte, a *Acc) {
 	}
 	mv := l.M.ToMap()
 	before := tagged.CanonGo(mv)
+	// the same document with equal sub-documents held as ONE object: the same terminal values under the same paths
+	if shared, ok := tagged.InternGo(map[string]interface{}(mv)).(map[string]interface{}); ok && tagged.SharedContainer(shared) != "" {
+		render := func(m mxj.Map) []string {
+			var r []string
+			for _, n := range m.LeafNodes() {
+				r = append(r, n.Path+" = "+tagged.CanonGo(n.Value))
+			}
+			sort.Strings(r)
+			return r
+		}
+		var g1, g2 []string
+		if p := guard(func() { g1 = render(mv); g2 = render(mxj.Map(shared)) }); p == "" && strings.Join(g1, "; ") != strings.Join(g2, "; ") {
+			a.Mis("leaf:shared-subdocuments", fmt.Sprintf("LeafNodes on %s: %v; with equal sub-documents held as one object: %v", short(before), g1, g2), l)
+		}
+	}
 	emptyKey := hasEmptyKey(mv) || hasNestedList(mv) // outside the resolution clause's domain
 	nontriv, cases := 0, 0
 	defer func() { mxj.SetAttrPrefix("-"); mxj.LeafUseDotNotation(false) }()
